@@ -13,6 +13,7 @@ func Register(reg *kernel.Registry) {
 		reg.Serves[p] = append(reg.Serves[p], "ag")
 	}
 	reg.Serves["C13"] = append(reg.Serves["C13"], "ag")
+	reg.Serves["C14"] = append(reg.Serves["C14"], "ag") // block-stream replicas
 	reg.Scenarios["ics20"] = ICS20Scenario{}
 	reg.Components["ics20"] = [2][]string{
 		{"two teleport applications with real ibc-go core (clients, connection, channel handshakes, packet commitments, proofs) and the ICS-20 transfer application wrapped by the aggregate middleware; MsgTransfer and MsgRecvPacket through DeliverTx"},
